@@ -110,6 +110,13 @@ def rule_k4(ctx, F):
     fn = F.fn("chess::gamestate::GameState::hash")
     nf = sym_fn(fn, F)
     ok = _is_index(nf, "chess::zobrist::STATE", ("cast", ("field", ("var", "self"), "bitfield"), "usize"))
+    if not ok:
+        # decided by value: the index is the state byte itself for each of its 256 values (a mask that keeps every bit is fine,
+        # one that drops a bit makes two states share a key)
+        base, i = _index_parts(nf)
+        if base == ("const", "chess::zobrist::STATE") and i is not None:
+            i2 = hir.resolve_consts(i, F)
+            ok = all(hir.fold(i2, {("field", ("var", "self"), "bitfield"): ("lit", b)}, D) == ("lit", b) for b in range(256))
     ctx.check("C04.K4", "GameState::hash=STATE[bitfield]", ok, fn=fn["path"], file=fn["file"], line=fn["span"][0],
               what="GameState::hash is not STATE[whole bitfield]", expected="STATE[self.bitfield as usize]",
               found=hir.fmt(nf))
